@@ -305,9 +305,35 @@ def after_hook(repo):
     raise Unsupported("client_connected hook not found in handle_client")
 
 
+def stateless_class(tree):
+    """The addon instance carries no state between hooks: class Block defines only `load` and `client_connected`
+    (no __init__, configure, caches, class attributes), has no base class or decorator, and no method body mentions
+    `self` except `load` (which only registers options) -- and even there never assigns to an attribute of self.
+    Module level: only imports and the class.  Anything else fails closed, so a memo/cache cannot slip past the model."""
+    for n in tree.body:
+        if not (isinstance(n, (ast.Import, ast.ImportFrom)) or (isinstance(n, ast.ClassDef) and n.name == "Block") or is_doc(n)):
+            bad(n, "module-level statement other than imports and class Block (possible module state)")
+    cls = [n for n in tree.body if isinstance(n, ast.ClassDef) and n.name == "Block"][0]
+    if cls.bases or cls.keywords or cls.decorator_list:
+        bad(cls, "Block has bases/decorators")
+    for m in cls.body:
+        if is_doc(m):
+            continue
+        if not isinstance(m, ast.FunctionDef) or m.name not in ("load", "client_connected"):
+            bad(m, "class Block member other than load/client_connected (possible per-instance state)")
+        for x in ast.walk(m):
+            if isinstance(x, (ast.Global, ast.Nonlocal)):
+                bad(x, "global/nonlocal in a Block method")
+            if isinstance(x, ast.Attribute) and isinstance(x.value, ast.Name) and x.value.id == "self" and not isinstance(x.ctx, ast.Load):
+                bad(x, "assignment to an attribute of self")
+            if m.name == "client_connected" and isinstance(x, ast.Name) and x.id == "self":
+                bad(x, "client_connected reads the addon instance")
+
+
 def translate(repo: str) -> str:
     src_path = os.path.join(repo, "mitmproxy/addons/block.py")
     tree = ast.parse(open(src_path).read())
+    stateless_class(tree)
     fn = find_method(tree, "Block", "client_connected")
     if [a.arg for a in fn.args.args] != ["self", "client"] or fn.decorator_list:
         raise Unsupported("client_connected signature")
@@ -356,6 +382,13 @@ def translate(repo: str) -> str:
     o.append("Definition client_connected (block_private block_global : bool) (proxy_mode : proxy_mode) (address : ip) : option string :=")
     o.append("  let error := @None string in")
     o.append("  " + main + ".")
+    o.append("")
+    o.append("(* The addon instance as a state machine over the hook: established by stateless_class in the translator")
+    o.append("   (no member besides load/client_connected, no use of self), the instance state is trivial. *)")
+    o.append("Definition addon_state : Type := unit.")
+    o.append("Definition initial_state : addon_state := tt.")
+    o.append("Definition hook_step (st : addon_state) (block_private block_global : bool) (proxy_mode : proxy_mode) (address : ip)")
+    o.append("  : addon_state * option string := (st, client_connected block_private block_global proxy_mode address).")
     o.append("")
     o.append("Inductive action := CloseWriter | StartEvent | HandleConnection.")
     o.append("Definition handle_client_after_hook (client_error : bool) : list action :=")
